@@ -463,6 +463,8 @@ func main() {
 				}
 				desc["string_len"] = len(str)
 				desc["reparse_ok"] = reOK
+			}
+			if s != "" {
 				ps := strings.Split(s, ",")
 				if len(s) > 1500 && len(ps) <= 3 {
 					ps = nil // large input with few list-members: the per-piece observation is skipped
@@ -673,6 +675,20 @@ func main() {
 	for _, h := range []string{"k=v;p=dGVzdA==", "k=dGVzdA==;p=a=b", "k=v;p=a=b;q==;r= = ", "k=v;p=a+b;q=%2B", "k=v;p=x%3By;q=1%2C2", "k=v;p=50%25;q=%20a%20b%20", "k=v;p=a b", "k=v;p=a;b=c,d=e"} {
 		addParse(h, "parse-corpus")
 	}
+
+	// many more list-members than 180/181 over few distinct keys (duplicates: the last value wins; the member limit
+	// counts distinct keys)
+	dupHeader := func(members, keys int) string {
+		var hs []string
+		for i := 0; i < members; i++ {
+			hs = append(hs, fmt.Sprintf("k%d=%d", i%keys, i))
+		}
+		return strings.Join(hs, ",")
+	}
+	for _, mk := range [][2]int{{182, 91}, {240, 120}, {400, 100}, {361, 180}, {300, 180}, {300, 181}, {362, 181}, {183, 180}, {1000, 7}} {
+		addParse(dupHeader(mk[0], mk[1]), "parse-limit-dups")
+	}
+	addParse(dupHeader(200, 150)+",k3=last;p=1", "parse-limit-dups")
 
 	// re-serialisation growth at the limits
 	for _, k := range []int{300, 453, 454, 455, 456, 909, 910, 911} {
